@@ -12,16 +12,20 @@ W = r'class PODResizeableArray\b'
 UNITS = []
 
 
-def prelude(T):
-    return '''
+def prelude(T, sfx):
+    return sfxify('''
 #include <stdlib.h>
 typedef %s pod_t;
 struct PRA { pod_t* data_; size_t capacity_; size_t size_; };
+#ifndef GV_PRA_SHARED
+#define GV_PRA_SHARED
 size_t g_k;      /* ghost probe INDEX into the abstract sequence */
-pod_t g_kv;      /* ghost: the element at g_k before the call (assigned by the harness) */
-size_t g_c;      /* ghost probe index into a source range */
+size_t g_k2;     /* a second preserved probe index (lemmas about two positions at once) */
 bool g_thrown;   /* std::out_of_range thrown */
 #define MAXN ((size_t)1 << 40)
+#endif
+pod_t g_kv;      /* ghost: the element at g_k before the call (assigned by the harness) */
+size_t g_c;      /* ghost probe index into a source range of this element type */
 /* realloc (trusted stub over CBMC's malloc): a NEW block of n bytes whose content equals the old block's at the probe
    element.  The old block is gone afterwards: it is not handed back to CBMC's allocator (conditional frees do not compose
    with contract replacement in goto-instrument 6.11) but POISONED at the probe element, so that a read through a stale
@@ -38,14 +42,45 @@ static inline void* gv_realloc(void* p, size_t n)
       if ((g_k + 1) * sizeof(pod_t) <= n) q[g_k] = ((pod_t*)p)[g_k];
       ((pod_t*)p)[g_k] = nondet_pod();
     }
+    if (g_k2 != g_k && g_k2 < 2 * MAXN && (g_k2 + 1) * sizeof(pod_t) <= old && (g_k2 + 1) * sizeof(pod_t) <= n) q[g_k2] = ((pod_t*)p)[g_k2];
   }
   return q;
 }
 /* std::copy_n / memcpy on trivially copyable elements: element g_c of the source arrives at element g_c of the destination
    (the probe is arbitrary, so this is "every element"); reads and writes are checked to be inside their blocks */
-static inline void gv_copy_n(const pod_t* src, size_t n, pod_t* dst)
+/* copies of at most 16 elements, carried out exactly */
+static inline void gv_copy_exact16(const pod_t* src, size_t n, pod_t* dst)
+{
+  if (0 < n) dst[0] = src[0];
+  if (1 < n) dst[1] = src[1];
+  if (2 < n) dst[2] = src[2];
+  if (3 < n) dst[3] = src[3];
+  if (4 < n) dst[4] = src[4];
+  if (5 < n) dst[5] = src[5];
+  if (6 < n) dst[6] = src[6];
+  if (7 < n) dst[7] = src[7];
+  if (8 < n) dst[8] = src[8];
+  if (9 < n) dst[9] = src[9];
+  if (10 < n) dst[10] = src[10];
+  if (11 < n) dst[11] = src[11];
+  if (12 < n) dst[12] = src[12];
+  if (13 < n) dst[13] = src[13];
+  if (14 < n) dst[14] = src[14];
+  if (15 < n) dst[15] = src[15];
+}
+static inline void gv_copy_probe(const pod_t* src, size_t n, pod_t* dst)
 { if (g_c < n) { dst[g_c] = src[g_c]; } if (n > 0) { pod_t a = src[n - 1]; dst[n - 1] = (g_c == n - 1) ? a : dst[n - 1]; } }
-#define gv_memcpy(dst, src, bytes) gv_copy_n((const pod_t*)(src), (bytes) / sizeof(pod_t), (pod_t*)(dst))
+static inline void gv_copy_n(const pod_t* src, size_t n, pod_t* dst)
+{
+#ifdef GV_COPY_EXACT16
+  if (n <= 16) { gv_copy_exact16(src, n, dst); return; }
+#endif
+  gv_copy_probe(src, n, dst);
+}
+/* memcpy: as copy_n, and copies of at most 16 elements (scalars, length fields whose VALUE the code goes on to use) are always exact */
+static inline void gv_memcpy_elems(const pod_t* src, size_t n, pod_t* dst)
+{ if (n <= 16) gv_copy_exact16(src, n, dst); else gv_copy_probe(src, n, dst); }
+#define gv_memcpy(dst, src, bytes) gv_memcpy_elems((const pod_t*)(src), (bytes) / sizeof(pod_t), (pod_t*)(dst))
 /* representation invariant: no block <=> capacity 0; the block has exactly capacity_ elements; size_ <= capacity_ */
 #define PRA_SHAPE(a) ((a)->size_ <= (a)->capacity_ && (a)->capacity_ <= 2 * MAXN)
 #define PRA_OK(a) (__CPROVER_is_fresh(a, sizeof(*(a))) && PRA_SHAPE(a) && ((a)->capacity_ == 0 ? (a)->data_ == (pod_t*)0 : __CPROVER_is_fresh((a)->data_, (a)->capacity_ * sizeof(pod_t))))
@@ -53,8 +88,25 @@ static inline void gv_copy_n(const pod_t* src, size_t n, pod_t* dst)
 #define PRA_VALID(a) (PRA_SHAPE(a) && ((a)->capacity_ == 0 ? (a)->data_ == (pod_t*)0 : (((a)->data_ == __CPROVER_old((a)->data_) && (a)->capacity_ == __CPROVER_old((a)->capacity_)) || __CPROVER_is_fresh((a)->data_, (a)->capacity_ * sizeof(pod_t)))))
 #define PRA_VALID_NEW(a) (PRA_SHAPE(a) && ((a)->capacity_ == 0 ? (a)->data_ == (pod_t*)0 : __CPROVER_is_fresh((a)->data_, (a)->capacity_ * sizeof(pod_t))))
 #define KEPT(a) ((a)->data_[g_k] == g_kv)
+''' % T, sfx) + '''
+#ifndef GV_OOR
+#define GV_OOR
 static inline void gv_out_of_range(void) { g_thrown = 1; }
-''' % T
+#endif
+'''
+
+
+IDENTS = ['gv_memcpy_elems', 'gv_copy_exact16', 'gv_copy_probe', 'g_c', 'pod_t', 'PRA_OK', 'PRA_SHAPE', 'PRA_VALID_NEW', 'PRA_VALID', 'KEPT', 'g_kv', 'g_v', 'gv_realloc', 'gv_copy_n', 'gv_memcpy', 'nondet_pod']
+_IDRX = re.compile(r'(?<![\w])(' + '|'.join(sorted(IDENTS, key=len, reverse=True)) + r')(?![\w])')
+
+
+def sfxify(text, sfx):
+    """every type / macro / stub / ghost that depends on the element type carries the instantiation suffix, so that two
+    instantiations can live in one translation unit (C17 needs PODResizeableArray<uint8_t> and <uint64_t> together)"""
+    if text is None:
+        return None
+    text = _IDRX.sub(lambda m: m.group(1) + sfx, text)
+    return re.sub(r'struct PRA(?![\w])', 'struct PRA' + sfx, text)
 
 
 M = members(['data_', 'capacity_', 'size_'], minimum=1)
@@ -76,15 +128,17 @@ def harness(call, pre=''):
 
 
 for T, sfx in (('uint8_t', '_u8'), ('uint64_t', '_u64')):
-    P = [prelude(T)]
+    P = [prelude(T, sfx)]
 
     def U(name, anchor, proto, contract, says, uses=(), inl=(), loops=None, occurrence=None, extra=(), ctor_inits=None, nullplus0=False, **kw):
         # &data_[0] / &data_[size_] on the empty array is NULL + 0: defined in C++ (not in C), so the pointer-arithmetic check is off for begin()/end()
         UNITS.append(Unit(
-            name='PRA_' + name + sfx, src=PRA, within=W, anchor=anchor, occurrence=occurrence, proto=proto.replace('@', sfx), contract=contract.replace('@', sfx),
+            name='PRA_' + name + sfx, src=PRA, within=W, anchor=anchor, occurrence=occurrence, proto=sfxify(proto, sfx).replace('@', sfx), contract=sfxify(contract, sfx).replace('@', sfx),
             prelude=P, uses=['PRA_' + u + sfx for u in uses], inline=['PRA_' + u + sfx for u in inl],
-            lower=list(extra) + [Rr for Rr in COMMON] + [M, rx(r'@', sfx, 0)], loops=loops or {}, ctor_inits=ctor_inits,
-            no_flags=['--conversion-check'] + (['--pointer-overflow-check'] if nullplus0 else []), inst='_Tp = %s' % T, says=says, **kw))
+            lower=list(extra) + [Rr for Rr in COMMON] + [M, rx(r'@', sfx, 0), rx(_IDRX.pattern, (lambda m, sfx=sfx: m.group(1) + sfx), 0), rx(r'struct PRA(?![\w])', 'struct PRA' + sfx, 0)],
+            loops={k: sfxify(v, sfx) for k, v in (loops or {}).items()}, ctor_inits=ctor_inits,
+            no_flags=['--conversion-check'] + (['--pointer-overflow-check'] if nullplus0 else []), inst='_Tp = %s' % T, says=says,
+            **{k: (sfxify(v, sfx) if k in ('post_pre', 'ghost_prefix', 'harness_pre') else v) for k, v in kw.items()}))
 
     U('reserve', r'void reserve\(size_t n\)', 'void PRA_reserve@(struct PRA* self, size_t n)',
       '''__CPROVER_requires(PRA_OK(self) && n <= MAXN && (g_k < self->size_ ==> KEPT(self)))
@@ -177,7 +231,7 @@ __CPROVER_ensures(PRA_VALID(self) && self->size_ == g_n && (g_c < g_n ==> self->
 __CPROVER_ensures(self->data_ == __CPROVER_old(v->data_) && self->size_ == __CPROVER_old(v->size_) && self->capacity_ == __CPROVER_old(v->capacity_) && v->data_ == __CPROVER_old(self->data_) && v->size_ == __CPROVER_old(self->size_) && v->capacity_ == __CPROVER_old(self->capacity_))
 __CPROVER_assigns(__CPROVER_object_whole(self), __CPROVER_object_whole(v))''',
       'swap: the two arrays exchange block, size and capacity',
-      extra=[rx(r'std::swap\((\w+), v\.(\w+)\);', r'{ __typeof__(self->\1) t_ = self->\1; self->\1 = v->\2; v->\2 = t_; }', 3, 3)])
+      extra=[rx(r'std::swap\((\w+), v\.(\w+)\);', r'{ __typeof__(\1) t_ = \1; \1 = v->\2; v->\2 = t_; }', 3, 3)])
     U('move_ctor', r'PODResizeableArray\(PODResizeableArray&& v\)', 'void PRA_move_ctor@(struct PRA* self, struct PRA* v)',
       '''__CPROVER_requires(__CPROVER_is_fresh(self, sizeof(*self)) && __CPROVER_is_fresh(v, sizeof(*v)))
 __CPROVER_ensures(self->data_ == __CPROVER_old(v->data_) && self->size_ == __CPROVER_old(v->size_) && self->capacity_ == __CPROVER_old(v->capacity_) && v->data_ == (pod_t*)0 && v->size_ == 0 && v->capacity_ == 0)
